@@ -1,3 +1,4 @@
+import TemplVerif.Generated.Skeletons
 import TemplVerif.Model.Js
 import TemplVerif.Spec.JsLex
 import TemplVerif.Proofs.Js
@@ -64,5 +65,17 @@ theorem C03_fname (fn : Bytes) (ps : List Param) :
 /-- Non-vacuity: the template-literal break-out that the unrepaired table let through. -/
 example : lexString .backtick (replace [36, 123, 97, 125] ++ [96]) = .ok [36, 123, 97, 125] [] := by decide
 example : validFunctionName [97, 46, 98] = false ∧ validFunctionName [97, 98, 46, 99, 100] = true := by decide
+
+-- BEGIN transcription pins (written by tools/mkpins.py)
+/-- T1, transcription pins: the control structure and calls (extract/skeleton.go) of the functions whose models
+    were written by hand are the ones the models were transcribed from:
+      scripttemplate.go jsonEncodeParam
+      runtime/scriptelement.go scriptContent
+    A change of what one of them calls or how it branches breaks this theorem; the check then searches for a
+    failing input and reports either that or `no-failing-input-found`. -/
+theorem C03_transcription_pinned :
+    Generated.skel_script_jsonEncodeParam = 16854701993303472932 ∧
+    Generated.skel_scriptel_scriptContent = 5859485942866768238 := by decide
+-- END transcription pins
 
 end TemplVerif.Props.C03
